@@ -1173,7 +1173,8 @@ func propC12(r *Run, w *World) {
 					nT++
 				}
 				for _, c := range callsNamedIn(f, "strings.ToLower") {
-					okT = okT && strings.HasSuffix(Term(c.Common().Args[0]), ".value")
+					// the field's parsed value, whichever of the source keys it came from
+					okT = okT && allPhiLeaves(c.Common().Args[0], func(v ssa.Value) bool { return strings.HasSuffix(TermAt(v, c.Block()), ".value") })
 					nT++
 				}
 			})
@@ -1373,24 +1374,42 @@ func propC12(r *Run, w *World) {
 			ok := len(calls) == 1 && strings.HasSuffix(Term(calls[0].Common().Args[0]), spec.suffix)
 			r.Check(ok, spec.fn+" decodes the original token", fn.Pos(), "", spec.fn+" hex-decodes something other than the field's original token")
 		}
+		// the decoder proper: decodeUppercaseHex, or decodeUppercaseHexString when the two are one function
+		var cands []*ssa.Function
 		if du, err := w.Func("auparse", "decodeUppercaseHex"); err == nil {
-			okOdd := false
-			for _, ret := range retEdges(du) {
-				if ret.Holds("(len(p1) % 2) == 1") && !isNilConst(ret.Results[1]) {
-					okOdd = true
-				}
-			}
-			r.Check(okOdd, "odd length rejected", du.Pos(), "", "decodeUppercaseHex does not reject odd-length input")
-			// dst[i] = a<<4 | b
-			okW := false
-			for _, st := range storesOf(du) {
-				if strings.HasPrefix(AddrTerm(st.Addr), "p0[") && strings.Contains(Term(st.Val), " << 4) | ") {
-					okW = true
-				}
-			}
-			r.Check(okW, "byte = hi<<4 | lo", du.Pos(), "", "decoded byte is not (a << 4) | b")
-		} else {
+			cands = append(cands, du)
+		}
+		if ds, err := w.Func("auparse", "decodeUppercaseHexString"); err == nil {
+			cands = append(cands, ds)
+		} else if len(cands) == 0 {
 			r.Anchor(err)
+		}
+		if len(cands) > 0 {
+			okOdd, okW := false, false
+			for _, du := range cands {
+				for _, ret := range retEdges(du) {
+					ev, _ := errResultE(ret)
+					if ev == nil || isNilConst(ev) {
+						continue
+					}
+					for k := range du.Params {
+						if ret.Holds(fmt.Sprintf("(len(p%d) %% 2) == 1", k)) || ret.Holds(fmt.Sprintf("(len(p%d) %% 2) != 0", k)) {
+							okOdd = true
+						}
+					}
+				}
+				// byte = a<<4 | b, stored into the output or appended to it
+				instrsOf(du, func(in ssa.Instruction) {
+					switch x := in.(type) {
+					case *ssa.Store:
+						if strings.Contains(Term(x.Val), " << 4) | ") && !strings.HasPrefix(AddrTerm(x.Addr), "local.") || strings.Contains(AddrTerm(x.Addr), "varargs") && strings.Contains(Term(x.Val), " << 4) | ") {
+							okW = true
+						}
+					}
+				})
+			}
+			r.Check(okOdd, "odd length rejected", cands[0].Pos(), "", "the upper-case hex decoder does not reject odd-length input")
+			r.Check(okW, "byte = hi<<4 | lo", cands[0].Pos(), "", "decoded byte is not (a << 4) | b")
 		}
 	}
 
@@ -1693,4 +1712,26 @@ func dottedQuad(fn *ssa.Function) (bool, string) {
 		}
 	})
 	return found, how
+}
+
+// allPhiLeaves: pred holds for every non-phi value that can flow into v through phis.
+func allPhiLeaves(v ssa.Value, pred func(ssa.Value) bool) bool {
+	seen := map[*ssa.Phi]bool{}
+	var walk func(v ssa.Value) bool
+	walk = func(v ssa.Value) bool {
+		if ph, ok := v.(*ssa.Phi); ok {
+			if seen[ph] {
+				return true
+			}
+			seen[ph] = true
+			for _, e := range ph.Edges {
+				if !walk(e) {
+					return false
+				}
+			}
+			return true
+		}
+		return pred(v)
+	}
+	return walk(v)
 }
